@@ -533,11 +533,14 @@ def run_case(ctx, case, model_out=None):
             A = nprng.normal(size=(D, D)) + 1j * nprng.normal(size=(D, D))
             rho = A @ A.conj().T
             rho /= np.trace(rho).real
-            out = (taylor_expm(-1j * case["t"] * Lm) @ rho.reshape(-1)).reshape(D, D)
-            if abs(np.trace(out) - 1) > 1e-9:
-                probs.append(f"tr exp(-itL)rho = {np.trace(out):.6g}")
+            prop = taylor_expm(-1j * case["t"] * Lm)
+            out = (prop @ rho.reshape(-1)).reshape(D, D)
+            # round-off of the propagator scales with its norm (it grows for non-Hermitian H)
+            ptol = 1e-9 * max(1.0, float(np.linalg.norm(prop, 2))) * max(1.0, float(np.linalg.norm(case["t"] * Lm, 2)))
+            if abs(np.trace(out) - 1) > ptol:
+                probs.append(f"tr exp(-itL)rho = {np.trace(out):.6g} (tol {ptol:.1e})")
             if case["herm_h"]:
-                if np.linalg.norm(out - out.conj().T) > 1e-9:
+                if np.linalg.norm(out - out.conj().T) > ptol:
                     probs.append("exp(-itL)rho is not Hermitian")
                 U = taylor_expm(-1j * case["t"] * Hd)
                 if np.linalg.norm(out - U @ rho @ U.conj().T) > 1e-9 * max(1.0, np.linalg.norm(U) ** 2):
